@@ -20,6 +20,9 @@ CHECKS = {
     "C16": ("fault_enumeration", "runtime monitoring with fault injection: hard read error at every input offset and hard write error at every output offset of each generated run, observed at the instrumented Read/Write boundary",
             "For every generated input the fault point ranges over all byte offsets of the input (read) and of the fault-free output (write, also stderr), each a real execution; the oracle demands Err, no panic, no read after the error and prefix-of-fault-free output.",
             "Inputs, pipelines and policies are sampled (exhaustive over offsets, not over inputs); file read faults are not injectable at this boundary.", "5 C16"),
+    "C17": ("exploration", "runtime monitoring: differential oracle over delivery forms (read schedules with Interrupted, stdin vs file, 1-4 files) plus a span model from the generator for the input-context selectors",
+            "Each generated stream is delivered in five forms and as file partitions (also cut inside a value); rows carrying all seven input-context selectors are compared across forms and against byte spans known to the generator.",
+            "(line, column) is mapped to a byte offset as line start + column - 1; chunking inside BufReader<File> cannot be controlled from the boundary.", "5 C17"),
 }
 
 PENDING_REASON = "check not built yet in this session (see DESIGN.md section 5 for the planned monitor)"
